@@ -32,6 +32,7 @@ def cases(tier):
             is_scalar = e < x or e in (x + 3, x + 4)
             if is_scalar:
                 add('proof scalar element %d += delta' % e, tamper={'op': 'scalar_add_delta', 'elem': e}, scalar_elem=e)
+                add('proof scalar element %d re-encoded non-canonically' % e, tamper={'op': 'scalar_noncanonical', 'elem': e})
             else:
                 for bs in ({'b': 'h'}, {'b': 'g', 'k': x - 1}, {'b': 'G', 'i': 0}, {'b': 'H', 'i': n * m - 1}, {'b': 'free'}):
                     if tier == 'quick' and bs['b'] in ('g', 'H') and e % 2 == 0:
@@ -61,6 +62,9 @@ def cases(tier):
         for k in range(x):
             add('blinding generator %d replaced' % k, tamper_statement={'op': 'g_base', 'k': k})
         add('transcript initial state', verify_label='alt')
+        for other in (x - 1, x + 1):
+            if 1 <= other <= 6:
+                add('extension-degree tag of the generators set to %d' % other, tamper_statement={'op': 'degree_tag', 'x': other})
     # the altered triple inside a batch: largest / not first positions (generator checks are per batch)
     for (n, x) in [(4, 1), (2, 2)]:
         small = {'m': 1, 'cap': 1}
@@ -79,6 +83,10 @@ def analyse(ctx, case, run, S):
         return
     ti = run.out['tamper'][0] if run.out.get('tamper') else None
     key = 'C05:' + case['alter'].split(' (')[0]
+    if 'non-canonically' in case['alter']:
+        # the altered byte string must already be refused by the decoder
+        ctx.expect(ti is not None and ti.get('decoded') is False, 'C05:noncanonical-scalar', '%s: the re-encoded proof was decoded' % case['name'], cfg, 'noncanonical_accepted')
+        return
     for v in run.out['verify']:
         if v['result'] == 'panic':
             ctx.expect(False, key + ':panic', '%s: PANIC in %s' % (case['name'], v['action']), cfg, 'any_panic')
